@@ -3,6 +3,7 @@ package main
 // Typed translation of contract expressions to SMT terms.
 
 import (
+	"go/ast"
 	"fmt"
 	"go/token"
 	"go/types"
@@ -585,7 +586,16 @@ func (fr *Frame) evalCall(e *CExpr, ctx *evalCtx) *Val {
 		if v, ok := fr.resolveLocalCurrent(args[0].Name, ctx.loop); ok {
 			return v
 		}
-		efail("local(%s): no such variable at this point", args[0].Name)
+		// declared later in the function (or in a scope not entered on this
+		// path): it has its zero value as far as a postcondition is concerned
+		for _, d := range fr.topFrame().debugRefs {
+			if id, ok := d.Expr.(*ast.Ident); ok && id.Name == args[0].Name {
+				if _, isVar := d.Object().(*types.Var); isVar {
+					return fr.zero(d.Object().Type())
+				}
+			}
+		}
+		efail("local(%s): no such variable in this function", args[0].Name)
 		return nil
 	case "atHead":
 		if ctx.head == nil {
